@@ -1371,8 +1371,10 @@ where
                         }
                     }
 
-                    // `poll_request` skips decoding while the pipeline queue is full
-                    let queue_was_full = inner.messages.len() >= MAX_PIPELINED_MESSAGES;
+                    // `poll_request` skips decoding while the pipeline queue is full or the request
+                    // payload applies back-pressure
+                    let decode_gate_was_closed = inner.messages.len() >= MAX_PIPELINED_MESSAGES
+                        || !inner.can_read(cx);
 
                     inner.as_mut().poll_request(cx)?;
 
@@ -1442,6 +1444,9 @@ where
                         return Poll::Ready(Ok(()));
                     }
 
+                    let decode_gate_open =
+                        inner.messages.len() < MAX_PIPELINED_MESSAGES && inner.can_read(cx);
+
                     let inner_p = inner.as_mut().project();
                     let state_is_none = inner_p.state.is_none();
 
@@ -1489,12 +1494,12 @@ where
                         inner_p.shutdown_timer,
                     );
 
-                    // Requests read while the pipeline queue was full have not been decoded. Now
-                    // that `poll_response` has drained the queue no I/O event would wake this task
-                    // for them, so schedule another poll.
-                    let undecoded_requests = queue_was_full
-                        && inner_p.messages.len() < MAX_PIPELINED_MESSAGES
-                        && !inner_p.read_buf.is_empty();
+                    // Bytes read while `poll_request` could not decode (full pipeline queue, or a
+                    // paused request payload) have not been decoded. If `poll_response` has since
+                    // drained the queue, or the handler has dropped the payload, no I/O event would
+                    // wake this task for them, so schedule another poll.
+                    let undecoded_requests =
+                        decode_gate_was_closed && decode_gate_open && !inner_p.read_buf.is_empty();
 
                     if undecoded_requests
                         || inner_p.flags.intersects(Flags::LINGER | Flags::SHUTDOWN)
